@@ -297,6 +297,9 @@ def main(tier, seed):
         batches.append({"kind": "messages", "n": 500 if q else 8000, "maxavps": 8, "seed": seed * 10007 + 6000 + i})
         batches.append({"kind": "deep", "n": 300 if q else 4000, "seed": seed * 10007 + 7000 + i})
     acc = harness.run_workers("checks.c01_encoding", "run_batch", batches, 1500)
+    if not q:
+        # the repository's own tests as a workload: every typed message they dump must be framed correctly
+        harness.run_suite_with_monitors(acc, ("dump-framing",))
     per = acc.extra.pop("per_class_ok", {})
     zero = [c for c in names if not per.get(c)]
     if zero:
